@@ -245,6 +245,62 @@ def correspondences(tier, rng):
             return (((st.format, st.reserved), st.language), [(c, cfont.getGlyphID(n_)) for c, n_ in st.cmap.items()])
         return res(go)
     out.append(Corr("cmap12_decompile", dcases, impl_cmap_decompile))
+    # composite components: GlyphComponent.compile / decompile (argument widths at their boundaries, the three transform forms, kept flags)
+    from fontTools.ttLib.tables._g_l_y_f import GlyphComponent
+    from lib.ser import Opt
+    KEEPF = 0x4 | 0x200 | 0x800 | 0x1000 | 0x10 | 0x400
+    class _GT:                                              # what the codec needs of a glyf table: glyph names <-> ids
+        def getGlyphName(self, gid): return "g%d" % gid
+        def getGlyphID(self, name): return int(name[1:])
+    def gen_comp():
+        flags = rng.choice([0, 0x4, 0x200, 0x1204, KEEPF, rng.below(1 << 13) & KEEPF, rng.below(1 << 16)])
+        gid = rng.choice([0, 1, 255, 256, 65535, rng.below(65536)] + ([65536] if rng.chance(3) else []))
+        B = [0, 1, -1, 127, 128, -128, -129, 255, 256, 32767, -32768, rng.randint(-500, 500)] + ([32768, -32769] if rng.chance(5) else [])
+        if rng.chance(80): ar = (0, rng.choice(B), rng.choice(B))
+        else: ar = (1, rng.choice([0, 1, 255, 256, 65535, rng.below(300)]), rng.choice([0, 255, 256, rng.below(70000)]))
+        T = [0, 16384, -16384, 8192, 1, -1, 32767, -32768, 3185, rng.randint(-32768, 32767)] + ([32768] if rng.chance(3) else [])
+        k = rng.below(6)
+        if k == 0: tr = None
+        elif k == 1: v = rng.choice(T); tr = (v, 0, 0, v)
+        elif k == 2: tr = (rng.choice(T), 0, 0, rng.choice(T))
+        elif k == 3: tr = (rng.choice(T), rng.choice(T), 0, rng.choice(T)) if rng.chance(50) else (rng.choice(T), 0, rng.choice(T), rng.choice(T))
+        else: tr = tuple(rng.choice(T) for _ in range(4))
+        return (rng.chance(50), rng.chance(30), (((flags, gid), ar), tr))
+    ccs = [gen_comp() for _ in range(N(tier, 800, 10000))]
+    def enc_comp(x):
+        more, instr, (((flags, gid), ar), tr) = x
+        return (more, instr, Raw([flags, gid, ar[0], ar[1], ar[2]] + ([1] + list(tr) if tr is not None else [0])))
+    def mk_comp(c):
+        ((flags, gid), ar), tr = c
+        g = GlyphComponent(); g.flags = flags; g.glyphName = "g%d" % gid
+        if ar[0] == 0: g.x, g.y = ar[1], ar[2]
+        else: g.firstPt, g.secondPt = ar[1], ar[2]
+        if tr is not None: g.transform = [[tr[0] / 16384, tr[1] / 16384], [tr[2] / 16384, tr[3] / 16384]]
+        return g
+    def impl_comp_compile(x):
+        more, instr, c = x
+        return res(lambda: list(mk_comp(c).compile(more, instr, _GT())))
+    out.append(Corr("component_compile", ccs, impl_comp_compile, enc=enc_comp))
+    dcs = []
+    for x in ccs[: len(ccs) // 2]:
+        r = impl_comp_compile(x)
+        if isinstance(r, Err): continue
+        b = list(r.v); r_ = rng.below(7)
+        if r_ == 0: b = b[:rng.randint(0, len(b) - 1)]
+        elif r_ == 1: b[rng.below(2)] = rng.below(256)                       # another flag word
+        elif r_ == 2: b += [rng.below(256) for _ in range(rng.randint(1, 5))]
+        dcs.append(b)
+    def impl_comp_decompile(b):
+        def go():
+            g = GlyphComponent(); more, instr, rest = g.decompile(bytes(b), _GT())
+            ar = Raw([0, g.x, g.y]) if hasattr(g, "x") else Raw([1, g.firstPt, g.secondPt])
+            tr = Opt(None)
+            if hasattr(g, "transform"):
+                tr = Opt(Raw([int(round(v * 16384)) for row in g.transform for v in row]), some=True)
+            return ((((Raw([g.flags, int(g.glyphName[1:])]), ar), tr), bool(more)), bool(instr)), list(rest)
+        r = res(go)
+        return r
+    out.append(Corr("component_decompile", dcs, impl_comp_decompile))
     return out
 
 # ------------------------------------------------------------------ sweeps
